@@ -121,8 +121,11 @@ pub fn small_scope_block(ctx: &Ctx, prop: &str, aad: &[u8], max_len: usize, max_
                 let dec_pairs: Vec<(usize, usize)> =
                     if wi == 0 { (0..crs.len()).map(|r| (r, r % ws.len())).collect() } else { vec![((wi + comp.len()) % crs.len(), wi)] };
                 for (ri, dwi) in dec_pairs {
-                    let enc_io = Io::new(Sched::list(comp.clone(), 1), w.clone());
-                    let dec_io = Io::new(crs[ri].clone(), ws[dwi].clone());
+                    let mut enc_io = Io::new(Sched::list(comp.clone(), 1), w.clone());
+                    let mut dec_io = Io::new(crs[ri].clone(), ws[dwi].clone());
+                    // half of the sinks implement write_vectored themselves, with short counts across slices
+                    enc_io.vectored = (wi + comp.len()) % 2 == 1;
+                    dec_io.vectored = (ri + comp.len()) % 2 == 0;
                     let nchunks = small_roundtrip(ctx, prop, &key, aad, c, &pt, &enc_io, &dec_io);
                     if nchunks >= 2 || len == 0 || len % c as usize == 0 {
                         keys.push(format!("small|{}|{}|{:?}|w{}|r{}", len, c, comp, wi, ri));
